@@ -37,7 +37,7 @@ Definition pure_item (top : colours) (subc : cls -> colours) (it : item) : list 
   | IPlain t => [([], t)]
   | IChunk None a t => [(col top a, t)]
   | IChunk (Some K) a t => [(col (subc K) a, t)]
-  | IEnum ft K v _ modi => pure_cell (subc K) ft v modi
+  | IEnum ft K _ v modi => pure_cell (subc K) ft v modi
   end.
 
 Definition pure_line (top : colours) (subc : cls -> colours) (l : list item) : list chunk :=
@@ -114,12 +114,11 @@ Proof.
     + intros K' [<-|[]]. unfold present. rewrite Hz. discriminate.
   - intros [= <- <-]. split; [reflexivity|intros K []].
   - intros [= <- <-]. split; [reflexivity|intros K []].
-  - cbn in Hok. subst lit.
-    destruct (get_sub true w cp K) as [[w1 q]|] eqn:E; [|discriminate]. cbn [bind fst snd].
+  - destruct (get_sub true w cp K) as [[w1 q]|] eqn:E; [|discriminate]. cbn [bind fst snd].
     destruct (moves_get_sub true fts _ _ _ _ _ (proj1 Hi) Hh E) as (M & _ & Hz).
     assert (inv fts w1) as Hi1 by (eapply inv_moves; eassumption).
-    destruct (enum_cell_pure w1 ft q vkey modi) as [Ec Eh]; [apply Hi1|].
-    destruct (enum_cell fts w1 ft q vkey vkey modi) as [w2 c2]. cbn [fst snd] in *.
+    destruct (enum_cell_pure w1 ft q lit modi) as [Ec Eh]; [apply Hi1|].
+    destruct (enum_cell fts w1 ft q lit lit modi) as [w2 c2]. cbn [fst snd] in *.
     intros [= <- <-].
     assert (forall x, pal_of w2 x = pal_of w1 x) as Ep by (intros x; unfold pal_of; rewrite Eh; reflexivity).
     split.
